@@ -57,7 +57,7 @@ GateHooks  == {"before_start", "before_spawn", "after_spawn", "after_start"}
 
 NoCtx == [on |-> FALSE, cid |-> "", cmd |-> "", lname |-> "", hasname |-> FALSE, pattern |-> FALSE, pid |-> -1, signum |-> -1,
           children |-> FALSE, recursive |-> FALSE, childpid |-> -1, G |-> -1, nostop |-> FALSE,
-          graceful |-> TRUE, seq |-> FALSE, cast |-> FALSE, waiting |-> FALSE, busy |-> FALSE, file |-> <<>>, arbchg |-> FALSE]
+          graceful |-> TRUE, seq |-> FALSE, cast |-> FALSE, waiting |-> FALSE, busy |-> FALSE, file |-> <<>>, arbchg |-> FALSE, setnp |-> -99]
 NoOp  == [slot |-> "", cmd |-> "", lname |-> "", hasname |-> FALSE, pattern |-> FALSE, mark |-> 0, t0 |-> 0, faulty |-> FALSE,
           gatefail |-> {}, nostop |-> FALSE, graceful |-> TRUE, seq |-> FALSE]
 NoTerm == [open |-> FALSE, sig |-> 0, t0 |-> 0, G |-> 0, killed |-> FALSE, kids |-> {}]
@@ -182,7 +182,7 @@ Upd(g, o, ln, o2) ==
                                childpid |-> ln.q.childpid, G |-> ln.q.G, nostop |-> ln.q.nostop,
                                graceful |-> ln.q.graceful, seq |-> ln.q.sequential, cast |-> ln.q.cast, waiting |-> ln.q.waiting,
                                busy |-> o2.slot # "", file |-> ln.q.file,
-                               arbchg |-> ("arbchg" \in DOMAIN ln.q /\ ln.q.arbchg)]
+                               arbchg |-> ("arbchg" \in DOMAIN ln.q /\ ln.q.arbchg), setnp |-> ln.q.setnp]
                 ELSE IF ln.cb = 0 \/ ln.k = "reqend" THEN NoCtx ELSE g.ctx
       reqs1  == IF isReq
                 THEN Append(g.reqs, [cid |-> ln.x, mid |-> ln.q.mid, cast |-> ln.q.cast, n |-> 0, t0 |-> ln.t,
@@ -368,6 +368,12 @@ C01_period(g, o2, ln) ==
    (ln.cb = 0 /\ ln.k \in {"tick", "end"} /\ g.bootDone /\ g.cfg.cd > 0 /\ g.closed = {} /\ ~o2.stopping /\ ~g.blocked
       /\ o2.slot = "")
      => ln.t - g.idleSince <= 2 * g.cfg.cd + 100
+\* an accepted `set` that names numprocesses (alone or among other options) has set it when the request has been
+\* handled: the target the count converges to is the one that was asked for
+C01_set(g, ln, o2) ==
+   (ln.k = "reqend" /\ g.ctx.on /\ ln.x = g.ctx.cid /\ g.ctx.cmd = "set" /\ g.ctx.setnp # -99 /\ ~g.ctxErr /\ g.ctx.hasname) =>
+      \A i \in WIdx(o2) : (o2.w[i].ln = g.ctx.lname /\ o2.w[i].n \in SeqToSet(o2.wl)) =>
+          o2.w[i].np = (IF g.ctx.setnp < 0 THEN 0 ELSE g.ctx.setnp)
 C01_fixpoint(g, ln) == ~(g.inPass /\ g.passClean /\ ln.k \in (SigKinds \cup {"spawn"}))
 C01_fresh(g, o, o2) ==
    (o.slot # "" /\ o2.slot # o.slot /\ g.op.slot \in {"watcher_restart", "watcher_reload", "arbiter_restart",
@@ -716,7 +722,7 @@ C08_done(g, o, ln) ==
 ---------------------------------------------------------------------------
 Clauses(g, o, ln, o2, g2) ==
   [ C01_range |-> C01_range(o2), C01_converge |-> C01_converge(g2, o2), C01_fixpoint |-> C01_fixpoint(g, ln),
-    C01_period |-> C01_period(g, o2, ln),
+    C01_period |-> C01_period(g, o2, ln), C01_set |-> C01_set(g, ln, o2),
     C01_fresh |-> C01_fresh(g, o, o2),
     C02_complete |-> C02_complete(g2, o, o2), C02_opdone |-> C02_opdone(g, o, o2),
     C02_stays |-> C02_stays(g, o, ln, o2),
